@@ -322,6 +322,7 @@ func (e *Env) Generate(v Variant) (*GenResult, error) {
 		ac := v.C
 		ac.Channel = alt.Channel
 		ac.YamlStyle = alt.YamlStyle
+		ac.BoolStyle = alt.BoolStyle
 		ad := v.D
 		if len(alt.Msgs) > 0 {
 			ad.Msgs = alt.Msgs
